@@ -195,6 +195,13 @@ func NewAlt() *Alt {
 	return &Alt{C: c, proxy: p}
 }
 
+// Rebind attaches the CPU's bus to this adapter's own memory again (after InitFrom copied
+// another CPU's bus tables).
+func (p *Alt) Rebind() {
+	p.C.Bus.AttachReader(0, 0xffffff, func(a uint32) uint8 { return p.proxy.M.Read(a) })
+	p.C.Bus.AttachWriter(0, 0xffffff, func(a uint32, v uint8) { p.proxy.M.Write(a, v) })
+}
+
 func (p *Alt) Name() string    { return "cpualt" }
 func (p *Alt) SetMem(m *Mem)   { p.proxy.M = m }
 func (p *Alt) Mem() *Mem       { return p.proxy.M }
@@ -279,4 +286,10 @@ func NewPrimaryOn(c *cpu65c816.CPU, b *bus.Bus) *Primary {
 	}
 	c.Init(b)
 	return &Primary{C: c, Bus: b, proxy: p}
+}
+
+// WrapPrimary wraps a CPU that is already wired to its bus (emulator.System after CreateEmulator):
+// no memory is attached; SetMem/Mem must not be used.
+func WrapPrimary(c *cpu65c816.CPU, b *bus.Bus) *Primary {
+	return &Primary{C: c, Bus: b, proxy: &memProxy{M: NewMem(0)}}
 }
